@@ -249,12 +249,14 @@ func (v *Version) Compare(other *Version) int {
 func (v *Version) splitNumericAndPrerelease() ([]segment, []segment) {
 	var numeric, prerelease []segment
 
-	for _, seg := range v.segments {
-		if seg.isNumeric {
-			numeric = append(numeric, seg)
-		} else {
-			prerelease = append(prerelease, seg)
+	// The numeric part ends at the first string segment; everything from there on,
+	// including later numbers (the 1 of "rc1"), belongs to the prerelease part
+	for i, seg := range v.segments {
+		if !seg.isNumeric {
+			numeric, prerelease = v.segments[:i], v.segments[i:]
+			break
 		}
+		numeric = v.segments[:i+1]
 	}
 
 	return numeric, prerelease
